@@ -8,36 +8,21 @@ from analysis import facts, panics
 from rules import c06
 
 REASONS = [
- (r"^assert\|BoundsCheck", "slice indexing: index comes from a loop range bounded by len, from `len-1` after the non-empty check, from the parser's own variable table, or from the number tracker (distance to the next unconsumed operand, bounded by the operand count; C14's invariant)"),
+ (r"^index\|slice-like", "indexing of slices / vectors (bounds-check asserts and Index/IndexMut calls): every index comes from a loop range bounded by len, from `len-1` after the non-empty check, from `idx+1` behind the last-token-is-not-an-operator precondition (C07), from the parser's own variable table, from positions found by search in the same vector, from the priority order (a permutation of 0..#ops), or from the number tracker (distance to the next unconsumed operand; C14's invariant)"),
+ (r"^index\|str", "byte offsets produced by char_indices / take_while(len_utf8) / next_char_boundary are char boundaries inside the text"),
+ (r"^remove\|", "index < len: num_idx + 1 with num_idx from the priority order (< #nodes - 1), or element 0 of a non-empty unary list"),
  (r"^assert\|(DivisionByZero|RemainderByZero)", "divisor is usize::BITS (a non-zero constant)"),
- (r"^assert\|Overflow\(Add\)\|i32", "parenthesis counters: +-1 per token, bounded by the token count"),
- (r"^assert\|Overflow\((Add|Mul)\)\|i64", "priority arithmetic: prio (0..=99) * 10 + 5, prio + depth * 1000 / + 100 per level; depth bounded by the token count, far below i64::MAX"),
- (r"^assert\|Overflow\(Add\)\|u32", "idx + 1 with idx < 64 (bit index inside one tracker word)"),
- (r"^assert\|Overflow\(Add\)\|usize", "index + 1 / offset + len arithmetic on positions inside an in-memory vector or text (bounded by its length)"),
- (r"^assert\|Overflow\(Mul\)\|usize", "word count * 64 for the tracker capacity"),
  (r"^assert\|Overflow\(Shl\)", "1 << bit with bit < 64 (idx % 64, or single-word tracker used only for <= 64 operands)"),
- (r"^assert\|Overflow\(Sub\)\|i32", "parenthesis counter - 1"),
- (r"^assert\|Overflow\(Sub\)\|i64", "depth - 1 at a closing parenthesis: depth >= 1 by the balance precondition (C07 R07.1)"),
- (r"^assert\|Overflow\(Sub\)\|usize", "len - 1 after the non-empty check; idx - distance with distance <= idx (tracker); index shifts after a removal at a smaller index"),
- (r"sort", "comparators are total (String/&str Ord; partial_cmp on i64/str never None); sort itself only panics if the comparator does"),
- (r"str>::get\|", "str::get returns None instead of panicking"),
- (r"::remove\|", "index < len: num_idx + 1 with num_idx from the priority order (< #nodes - 1), element 0 of a non-empty unary list"),
- (r"Iterator::(count|sum|enumerate|position|last)\|", "can only overflow beyond usize::MAX elements"),
- (r"Drop::drop", "dropping a Box does not panic"),
- (r"Index(Mut)?::index(_mut)?\|str", "byte offsets produced by char_indices / take_while(len_utf8) / next_char_boundary are char boundaries inside the text"),
- (r"Index(Mut)?::index(_mut)?\|", "same invariants as the slice bounds checks: indices from the priority order, loop ranges, the tracker, or positions found by search in the same vector"),
- (r"expect\|usize\|<-Iterator::find", "next_char_boundary is only called with range_end < text.len(): a boundary exists within the next 4 bytes"),
- (r"unwrap\|.*<-Iterator::next", "first element of a sequence that is non-empty by construction (>= 1 node / operand)"),
- (r"unwrap\|\(usize,Operator\)\|<-param", "inside take_while(is_some)"),
- (r"unwrap\|.*<-NumCast::from", "f64 / small literal into a float or signed int type: always representable"),
+ (r"expect\|usize", "next_char_boundary is only called with range_end < text.len(): a boundary exists within the next 4 bytes (guard: the searched offsets cover 1..len)"),
+ (r"unwrap\|&str|unwrap\|String|unwrap\|T$", "first element of a sequence that is non-empty by construction (>= 1 node / operand), or NumCast of an f64 constant into a float type"),
+ (r"unwrap\|\(usize,Operator\)", "inside take_while(is_some)"),
+ (r"unwrap\|F$|unwrap\|I$", "f64 / small literal into a float or signed int type: always representable"),
  (r"unwrap\|Ordering", "partial_cmp on i64 / str is total"),
- (r"unwrap\|usize\|<-Iterator::position", "every variable of a node is in the union list it is re-indexed against (built from the same nodes)"),
- (r"expect\|Self\|<-Express::from_deepex", "from_deepex of a single-number expression cannot fail"),
- (r"expect\|.*<-Iterator::next|unwrap\|SmallVec<\[str\]>", "operator indices stored in an expression always exist in the factory's table they came from"),
+ (r"unwrap\|usize", "every variable of a node is in the union list it is re-indexed against (built from the same nodes; C04 R04.4)"),
+ (r"expect\|Self", "from_deepex of a single-number expression cannot fail"),
+ (r"expect\|SmallVec|unwrap\|SmallVec", "operator indices stored in an expression always exist in the factory's table they came from"),
  (r"unwrap\|DeepEx", "DeepEx::new with #nodes = #ops + 1 by construction"),
  (r"unwrap\|Regex", "constant, valid regular expressions"),
- (r"String::push", "allocation failure only"),
- (r"Vec::<T, A>::push|with_capacity", "allocation failure / capacity overflow only"),
  (r"^diverge\|core::panicking::panic", "assert!/debug_assert! in flatex_to_deepex on indices that come from the expression's own priority order ('point of panic for invalid input': unreachable for expressions built by this crate)"),
  (r"^diverge\|std::rt::panic_fmt", "defensive panics on internal inconsistencies: unknown variable (variables come from the same token list), operator both constant and unary/binary (table construction), operator index not in the table, empty flat_ops after a non-empty test"),
 ]
@@ -47,7 +32,9 @@ def main():
     pop = c06.lib_population(fb)
     by = collections.defaultdict(list)
     for s in pop:
-        by[panics.coarse_key(s)].append(s)
+        k = panics.lib_key(s)
+        if k is not None:
+            by[k].append(s)
     out = []
     for k in sorted(by):
         reason = None
@@ -58,7 +45,7 @@ def main():
         if reason is None:
             print("NO REASON FOR", k, file=sys.stderr)
             reason = "UNREVIEWED"
-        g = ["char_boundary_range"] if k == "call|std::option::Option::<T>::expect|usize|<-Iterator::find" else ["none"]
+        g = ["char_boundary_range"] if k == "call|std::option::Option::<T>::expect|usize" else ["none"]
         out.append({"key": k, "max": len(by[k]), "guards": g, "reason": reason,
                     "where": sorted({s["fn"].split("::")[-1] for s in by[k]})[:8]})
     path = os.path.join(HERE, "spec", "panic_audit.json")
